@@ -38,7 +38,7 @@ def page_image(seed, h=200, w=320):
     return ((base + rs.randint(0, 40, size=(h, w, 3))) % 256).astype(np.uint8)
 
 
-def make_job(root, page_ids, lines_per_page, seeds, heightless=False):
+def make_job(root, page_ids, lines_per_page, seeds, heightless=False, with_text=False):
     """creates <root>/img, <root>/xml (inputs) and <root>/config.ini; returns dict of paths."""
     import cv2
     from pero_ocr.core.layout import PageLayout, RegionLayout, TextLine
@@ -66,7 +66,8 @@ def make_job(root, page_ids, lines_per_page, seeds, heightless=False):
                 down = np.stack([xs[::-1], np.full(14, y + 4.0)], axis=1)
                 poly = np.concatenate([up, down], axis=0)
                 heights = None
-            reg.lines.append(TextLine(id="r1-l%03d" % (li + 1), baseline=base, polygon=poly, heights=heights))
+            reg.lines.append(TextLine(id="r1-l%03d" % (li + 1), baseline=base, polygon=poly, heights=heights,
+                                      transcription=("text %d of %s" % (li, pid)) if with_text else None))
         pl.regions = [reg]
         pl.to_pagexml(os.path.join(xml_dir, pid + ".xml"))
     cfg = os.path.join(root, "config.ini")
@@ -74,7 +75,11 @@ def make_job(root, page_ids, lines_per_page, seeds, heightless=False):
         f.write("[PAGE_PARSER]\nRUN_LAYOUT_PARSER = no\nRUN_LINE_CROPPER = yes\nRUN_OCR = yes\nRUN_DECODER = no\n\n"
                 "[LINE_CROPPER]\nINTERP = 2\nLINE_SCALE = 1\nLINE_HEIGHT = 16\n\n"
                 "[OCR]\nMETHOD = pytorch_ocr\nOCR_JSON = %s\nUSE_CPU = yes\n" % engine_json(CHARS, 16, 0))
-    return dict(root=root, img=img_dir, xml=xml_dir, config=cfg)
+    # the same configuration with the script's own section (a non-default logging level)
+    cfg_info = os.path.join(root, "config_info.ini")
+    with open(cfg_info, "w") as f:
+        f.write(open(cfg).read() + "\n[PARSE_FOLDER]\nLOGGING_LEVEL = INFO\n")
+    return dict(root=root, img=img_dir, xml=xml_dir, config=cfg, config_info=cfg_info)
 
 
 def out_dirs(root, name, kinds):
@@ -82,7 +87,7 @@ def out_dirs(root, name, kinds):
     return {k: os.path.join(base, k) for k in kinds}
 
 
-def argv_for(job, outs, skip=False, process_count=1, skip_missing_xml=False):
+def argv_for(job, outs, skip=False, process_count=1, skip_missing_xml=False, transcriptions_file=None):
     a = ["parse_folder.py", "-c", job["config"], "-i", job["img"], "-x", job["xml"], "--device", "cpu",
          "--process-count", str(process_count)]
     flag = {"xml": "--output-xml-path", "render": "--output-render-path", "logits": "--output-logit-path",
@@ -93,6 +98,8 @@ def argv_for(job, outs, skip=False, process_count=1, skip_missing_xml=False):
         a.append("-s")
     if skip_missing_xml:
         a.append("--skipp-missing-xml")
+    if transcriptions_file:
+        a += ["--output-transcriptions-file-path", transcriptions_file]
     return a
 
 
